@@ -32,6 +32,7 @@ type Program struct {
 	repoDir   string
 	allFns    map[*ssa.Function]bool
 	storesTo  map[*ssa.Global]bool
+	asTargets []types.Type
 }
 
 func loadProgram(repo string, patterns []string) (*Program, error) {
